@@ -11,7 +11,7 @@ V = os.path.dirname(os.path.dirname(os.path.abspath(__file__)))
 R = os.path.join(V, "refactors")
 CHECKS = {"scalar": ["C01", "C04", "C05", "C12", "C15", "C17"],
           "arrays1": ["C02", "C03", "C06", "C13", "C15", "C16", "C17", "C18"],
-          "arrays2": ["C02", "C03", "C06", "C13", "C14", "C15", "C16", "C17", "C18"],
+          "arrays2": ["C02", "C03", "C04", "C06", "C13", "C14", "C15", "C16", "C17", "C18"],
           "adaptive": ["C03", "C06", "C07", "C13", "C15", "C16", "C17", "C18"],
           "bitmap": ["C06", "C08", "C13", "C14", "C15", "C18"],
           "misc": ["C09", "C10", "C11", "C17"]}
